@@ -45,7 +45,7 @@ META = {
 OPTIONS = {  # name: [base, alternatives...]
     "a": [1.0, 3.0, 0.0], "b": [1.0, 2.0, 0.0], "e": [1.0, 0.5], "p": [0.3, 0.15], "n": [3, 5],
     "d": ["absolute", "numerical", "levenshtein"], "m": [False, True], "c": [False, True], "k": [False, True],
-    "seed": [7, 8], "s": [",", ";"], "out": ["stdout", "csv", "json"], "fmt": ["csv", "rttm"], "files": [1, 2, "2r", 3],
+    "seed": [7, 0], "s": [",", ";"], "out": ["stdout", "csv", "json"], "fmt": ["csv", "rttm"], "files": [1, 2, "2r", 3],
 }
 ROWS = {
     "f1": [("a", "1", 0, 3), ("a", "2", 5, 8), ("a", "10", 10, 12), ("b", "1", 0.5, 3), ("b", "10", 5, 8.5),
